@@ -227,9 +227,20 @@ func EvalString(this any, code string, emptyEnv bool) (object.Object, error) {
 	}
 	res := evalState.Eval(program)
 	if res.Type() == object.ERROR {
-		return res, fmt.Errorf("eval error: %v", res.Inspect())
+		return res, evalError{res}
 	}
 	return res, nil
+}
+
+// evalError is the error [EvalString] returns for an evaluation (as opposed to parsing) error.
+// The message is only built when asked for: the printed form of an error includes its stack, and
+// building it at every level of a deep recursion going through eval() was quadratic in the depth.
+type evalError struct {
+	res object.Object
+}
+
+func (e evalError) Error() string {
+	return "eval error: " + e.res.Inspect()
 }
 
 func (s *State) NumMacros() int {
